@@ -416,6 +416,14 @@ theorem initLocals_notfn (args : List V) (W0 : Nat → Prop) (s t : State) (h : 
     | fn c fr => exact absurd hh (hc c fr)
     | _ => exact ⟨_, rfl, rfl⟩
 
+theorem SameEnd.mono {α} {B B' : State → State → Prop} {x y : Except Exc α × State}
+    (h : SameEnd B x y) (hB : ∀ s t, B s t → B' s t) : SameEnd B' x y := by
+  rcases x with ⟨r1, s1⟩
+  rcases y with ⟨r2, t1⟩
+  cases r1 <;> cases r2 <;> simp only [SameEnd] at h ⊢
+  · exact h
+  · exact ⟨h.1, hB _ _ h.2⟩
+
 theorem SameEnd.bind {α β} {B C : State → State → Prop} {m : M α} {f : α → M β} {s t : State}
     (h : SameEnd B (exec m s) (exec m t))
     (hf : ∀ a s' t', exec m s = (.ok a, s') → exec m t = (.ok a, t') → B s' t' →
@@ -469,8 +477,9 @@ theorem prologue_eq (g : V) (args : List V) :
   simp only [prologue, prologueA, prologueB, bind_assoc]
   rfl
 
-theorem relA (g : V) (s t : State) (h : ResetEq s t) :
-    SameEnd (PreEq none (fun _ => False)) (exec (prologueA g) s) (exec (prologueA g) t) := by
+theorem relA (g : V) (W : Nat → Prop) (s t : State) (h : ResetEq s t)
+    (hst : ∀ i, W i → s.stack[i]! = t.stack[i]!) :
+    SameEnd (PreEq none W) (exec (prologueA g) s) (exec (prologueA g) t) := by
   have hS := h.shapeS
   have hT := h.shapeT
   cases g <;>
@@ -479,7 +488,11 @@ theorem relA (g : V) (s t : State) (h : ResetEq s t) :
             numModules := h.numModules, modules := h.modules, noPanic := h.noPanic, steps := h.steps,
             traceOn := h.traceOn, globals := by simp [h.heap], err := rfl, abort := rfl,
             shapeS := ⟨hS.stack, hS.frames⟩, shapeT := ⟨hT.stack, hT.frames⟩,
-            stack := fun _ hf => hf.elim, fnc := fun _ _ e => by cases e }
+            stack := hst, fnc := fun _ _ e => by cases e }
+
+/-- `liveEq`, and the stacks also agree on the slots `W` (all of them after `Clear`) -/
+def liveEqW (W : Nat → Prop) (s t : State) : Prop :=
+  liveEq s t ∧ ∀ i, W i → s.stack[i]! = t.stack[i]!
 
 theorem frames_modify_zero (a : Array Frame) (f : Frame → Frame) (h : 0 < a.size) :
     (a.modify 0 f)[0]! = f a[0]! := by
@@ -488,7 +501,7 @@ theorem frames_modify_zero (a : Array Frame) (f : Frame → Frame) (h : 0 < a.si
 theorem relB (c : Nat) (fr : Option (List Addr)) (W : Nat → Prop) (s t : State)
     (h : PreEq (some (c, fr)) W s t)
     (hW : ∀ j : Nat, (j : Int) < ((s.codes[c]!).numLocals : Int) → W j) :
-    SameEnd liveEq (exec prologueB s) (exec prologueB t) := by
+    SameEnd (liveEqW W) (exec prologueB s) (exec prologueB t) := by
   have hc := h.fnc c fr rfl
   have hS := h.shapeS
   have hT := h.shapeT
@@ -496,6 +509,7 @@ theorem relB (c : Nat) (fr : Option (List Addr)) (W : Nat → Prop) (s t : State
   have hft : 0 < t.frames.size := by rw [hT.frames]; decide
   simp only [prologueB, initCurrentFrame, exec_bind, exec_getS, exec_fnCell, exec_modS, ← h.mainFn, ← h.heap,
     ← h.codes, hc, SameEnd, true_and]
+  refine ⟨?_, fun i hi => h.stack i hi⟩
   exact {
     heap := rfl, codes := rfl, consts := h.consts, mainFn := rfl, numModules := h.numModules,
     globals := h.globals, modules := by simp [h.modules, h.numModules], noPanic := h.noPanic, err := h.err,
@@ -513,15 +527,20 @@ theorem relB (c : Nat) (fr : Option (List Addr)) (W : Nat → Prop) (s t : State
 /-- **prologue_live (core).**  Whatever residue `s` carries, if `s` and `t` agree on what
     `Clear`/`SetBytecode` (re)initialise, the prologue of `Run` ends the same way on both
     and leaves `liveEq` states. -/
-theorem prologue_live_core (g : V) (args : List V) (s t : State) (h : ResetEq s t) :
-    SameEnd liveEq (exec (prologue g args) s) (exec (prologue g args) t) := by
+theorem prologue_live_core (g : V) (args : List V) (W : Nat → Prop) (s t : State) (h : ResetEq s t)
+    (hst : ∀ i, W i → s.stack[i]! = t.stack[i]!) :
+    SameEnd (liveEqW W) (exec (prologue g args) s) (exec (prologue g args) t) := by
   rw [prologue_eq]
-  refine SameEnd.bind (relA g s t h) ?_
+  refine SameEnd.bind (relA g W s t h hst) ?_
   intro _ s1 t1 _ _ h1
   by_cases hfn : ∃ c fr, s1.heap[s1.mainFn]? = some (Cell.fn c fr)
   · obtain ⟨c, fr, hc⟩ := hfn
     refine SameEnd.bind (rel_initLocals args _ s1 t1 h1 c fr hc) ?_
     intro _ s2 t2 hs2 _ h2
+    refine (?_ : SameEnd (liveEqW (fun j => W j ∨ j < (s1.codes[c]!).numLocals)) _ _).mono ?_
+    rotate_left
+    · intro s' t' h'
+      exact ⟨h'.1, fun i hi => h'.2 i (Or.inl hi)⟩
     refine relB c fr _ s2 t2 h2 ?_
     intro j hj
     have hk := (keeps_initLocals (codes := s1.codes) (consts := s1.consts) (mainFn := s1.mainFn)
